@@ -178,6 +178,15 @@ class Check:
         if not floor_ok:
             print("INCONCLUSIVE property=%s: observation floor not reached: %s" % (self.pid, floor_text))
             return 2
+        # cases the monitor could not judge are not cases in which the property held: beyond a small allowance (none occur on
+        # the unchanged tree, except where a monitor sets its own allowance) the run decides nothing
+        ninc = self.extra.get("inconclusive_cases", 0)
+        allow = getattr(self, "max_inconclusive", None)
+        if allow is None:
+            allow = max(5, int(0.01 * self.evaluations))
+        if ninc > allow:
+            print("INCONCLUSIVE property=%s: %d cases could not be judged (allowance %d), e.g. %s" % (self.pid, ninc, allow, str(self.inconclusive[:2])[:400]))
+            return 2
         return 0
 
     def use_flavour(self, f):
